@@ -107,9 +107,13 @@ class NadaFunction(Generic[T, R]):
         )
 
     def __call__(self, *args, **kwargs) -> R:
-        if kwargs:
-            # Keyword arguments take the position of the parameter they name.
-            args = inspect.signature(self.function).bind_partial(*args, **kwargs).args
+        # Every parameter gets exactly one argument, as in a Python call (TypeError
+        # otherwise); keyword arguments take the position of the parameter they name.
+        args = inspect.signature(self.function).bind(*args, **kwargs).args
+        if len(args) != len(self.args):
+            raise TypeError(
+                f"{self.function.__name__}() takes {len(self.args)} arguments but {len(args)} were given"
+            )
         return self.return_type(
             child=NadaFunctionCall(self, args, source_ref=SourceRef.back_frame())
         )
